@@ -124,3 +124,13 @@ extern int __verif_tid__ZTISt17bad_function_call;
 void ext__ZSt25__throw_bad_function_callv(void) { __verif_throw_std(__verif_tid__ZTISt17bad_function_call); }
 extern int __verif_tid__ZTISt8bad_cast;
 void ext___cxa_bad_cast(void) { __verif_throw_std(__verif_tid__ZTISt8bad_cast); }   /* dynamic_cast<T&> failure */
+/* int compare(size_type pos, size_type n, const char* s) const   (basic_string.tcc: _M_check, _M_limit, traits::compare over min(rlen, strlen(s)), then the length difference clamped to int) */
+u32 ext__ZNKSt7__cxx1112basic_stringIcSt11char_traitsIcESaIcEE7compareEmmPKc(rt_string* s, u64 pos, u64 n, u8* str) {
+  if (pos > s->len) { __verif_throw_std(__verif_tid__ZTISt12out_of_range); return 0; }
+  u64 rlen = s->len - pos < n ? s->len - pos : n;
+  u64 osize = 0; while (str[osize]) osize++;
+  u64 len = rlen < osize ? rlen : osize;
+  for (u64 i = 0; i < len; i++) if (s->p[pos + i] != str[i]) return s->p[pos + i] < str[i] ? (u32)-1 : 1u;
+  int64_t d = (int64_t)(rlen - osize);
+  return d > 2147483647LL ? 2147483647u : d < -2147483648LL ? 0x80000000u : (u32)(int32_t)d;
+}
